@@ -9,6 +9,8 @@ import (
 	"encoding/hex"
 	"fmt"
 	"math/big"
+	"os"
+	"path/filepath"
 	"reflect"
 	"sort"
 	"strings"
@@ -336,6 +338,8 @@ func (o *Op) Line(u *Universe) string {
 		return "APP commit"
 	case "state":
 		return "APP state"
+	case "restart":
+		return "APP restart"
 	}
 	panic("bad op " + o.Kind)
 }
@@ -473,6 +477,27 @@ func (im *Impl) Do(o *Op) (res RawResp) {
 		return RawResp{Obs: "ok", Bytes: marshal(&r)}
 	case "state":
 		return RawResp{Obs: ShowState(im.App)}
+	case "restart":
+		// the node is stopped after a commit that saved its state and started again from the file
+		dir, err := os.MkdirTemp("", "verif-restart-")
+		if err != nil {
+			panic(err)
+		}
+		defer os.RemoveAll(dir)
+		keep := im.App.Gobpath
+		im.App.Gobpath = filepath.Join(dir, "shutter.gob")
+		if err := im.App.PersistToDisk(); err != nil {
+			im.App.Gobpath = keep
+			return RawResp{Obs: "save-failed"}
+		}
+		loaded, err := app.LoadShutterAppFromFile(im.App.Gobpath)
+		im.App.Gobpath = keep
+		if err != nil {
+			return RawResp{Obs: "load-failed"}
+		}
+		loaded.Gobpath = keep
+		im.App = &loaded
+		return RawResp{Obs: "ok"}
 	}
 	panic("bad op")
 }
